@@ -482,6 +482,29 @@ func TestCheck(t *testing.T) {
 			}
 		}
 	}
+	// many recovery files: the directory holds exactly 256 (and 255, 257, 512) entries at the time of the volume search
+	for vi, nv := range []int{253, 254, 255, 510} {
+		if !cfg.Mine(1000 + vi) || (nv > 300 && !cfg.Thorough()) {
+			continue
+		}
+		var vols []Vol
+		for e := 0; e < nv; e++ {
+			vols = append(vols, Vol{Suffix: fmt.Sprintf("v%03d", e), Exps: []int{e}})
+		}
+		rec.Class("many-volume-files")
+		do(Case{Files: []scen.FileSpec{{Name: "only.bin", Size: 9, Kind: "random", Seed: 5}}, Slice: 4, Base: "many", Vols: vols, Scramble: 0, G: 1})
+		do(Case{Files: []scen.FileSpec{{Name: "only.bin", Size: 9, Kind: "random", Seed: 5}}, Slice: 4, Base: "many", Vols: vols, Scramble: 0, G: 1, Damage: []scen.Damage{{Op: "delete", File: 0}}})
+	}
+	// file names in deep sub-directories whose relative path exceeds 255 bytes while every component is short
+	for li, depth := range []int{20, 24, 30, 60} {
+		if !cfg.Mine(2000 + li) {
+			continue
+		}
+		long := strings.Repeat("dir0123456/", depth) + "leaf.bin"
+		rec.Class("path-longer-than-255")
+		do(Case{Files: []scen.FileSpec{{Name: long, Size: 21, Kind: "random", Seed: 6}, {Name: "top.bin", Size: 9, Kind: "random", Seed: 7}}, Slice: 4, Base: "deep",
+			Vols: []Vol{{Suffix: "vol00+08", Exps: []int{0, 1, 2, 3, 4, 5, 6, 7}}}, Scramble: uint64(li), G: 1, Damage: []scen.Damage{{Op: "flip", File: 0, Off: 5}}})
+	}
 	cfg.SetRapid(cfg.N(350, 5000), 1)
 	rapid.Check(t, func(rt *rapid.T) {
 		if !do(gen(rt)) {
